@@ -75,6 +75,7 @@ func randomUint32n(n uint32) uint32 {
 	if n < 1 {
 		panic("randomUint32n called with 0")
 	}
+	verifOnDraw(n)
 	if n&(n-1) == 0 { // n is power of two, can mask
 		return randomUint32() & (n - 1)
 	}
